@@ -23,7 +23,7 @@ PLAN = {"C13": {
 RULE = {"C13": (
     "one evaluation = one seeded history of 4-30 calls (einsum, einsum_expression, array_contract, "
     "array_contract_expression, array_contract_path, ncon, re-use of a previously returned expression on fresh arrays) "
-    "over a pool of 3-8 contractions that differ from a base in ONE cache-key component (output order, output "
+    "over a pool of 3-8 contractions (a third of the pools with size-1 dimensions) that differ from a base in ONE cache-key component (output order, output "
     "dropped/added, one size, labels relabelled / negative ints / mixed types, tuple vs list, optimize value or path "
     "form, strip_exponent / implementation / prefer_einsum / sort_contraction_indices / canonicalize kwargs), starting "
     "from cold process-global caches, with eviction faults between calls; each call is compared with the same call "
